@@ -3695,16 +3695,11 @@ func (d *Document) appendMissingStyles(existing []byte) []byte {
 		return existing
 	}
 
-	// 插入到根元素的结束标签之前
-	end := bytes.LastIndex(existing, []byte("</"))
-	if end < 0 {
+	// 插入到根元素的结束标签之前（根元素之后可以有注释，根元素也可以自闭合，见 appendToRoot）
+	result, ok := appendToRoot(existing, append(additions, '\n'))
+	if !ok {
 		return existing
 	}
-	result := make([]byte, 0, len(existing)+len(additions)+1)
-	result = append(result, existing[:end]...)
-	result = append(result, additions...)
-	result = append(result, '\n')
-	result = append(result, existing[end:]...)
 	return result
 }
 
